@@ -171,13 +171,27 @@ def collect(h):
     # PutPlog: after encoding, an event that is not valid drops its argument objects and CUD rows (and the
     # original bytes when there is an unlogged argument), so the returned / cached object shows its stored form
     pp = h.func_body(rel, r"^func \(e \*appEventsType\) PutPlog\(", "PutPlog")
-    m = re.search(r"evData\s*:=\s*dbEvent\.storeToBytes\(\)\s*if\s+!dbEvent\.valid\(\)\s*\{(.*?)\n\t\}\n", pp, re.S)
+    m = re.search(r"evData\s*:=\s*dbEvent\.storeToBytes\(\)\n.*?\n\tif\s+!dbEvent\.valid\(\)\s*\{(.*?)\n\t\}\n", pp, re.S)
     clears = bool(m) and all(re.search(pat, m.group(1)) for pat in (
         r"dbEvent\.argObject\.clear\(\)", r"dbEvent\.argUnlObj\.clear\(\)", r"dbEvent\.cud\s*=\s*makeCUD\(",
         r"if\s+dbEvent\.argUnlObj\.QName\(\)\s*!=\s*appdef\.NullQName\s*\{\s*dbEvent\.buildErr\.bytes\s*=\s*nil"))
     if not clears and re.search(r"argObject\.clear\(\)|makeCUD\(", pp):
         raise h.Missing(f"{rel}: PutPlog: clearing of an invalid event not recognised")
     items.append(("c02_putplog_clears_invalid", "bool", "true" if clears else "false", rel + " PutPlog"))
+    # PutPlog: after encoding, the rows of the argument objects lose the marks of fields that were put empty
+    # (rowType.nils), which storeObject does not write
+    dn = re.search(r"(\w+)\s*:=\s*func\(o \*objectType\) error\s*\{\s*o\.nils\s*=\s*nil;?\s*return nil\s*\}", pp)
+    n_calls = 0
+    if dn:
+        n_calls = len(re.findall(r"dbEvent\.arg(?:Object|UnlObj)\.forEach\(" + dn.group(1) + r"\)", pp))
+    after_enc = bool(dn) and pp.index("storeToBytes()") < dn.start()
+    if dn and n_calls == 2 and after_enc:
+        drops = "true"
+    elif not dn and ".nils" not in pp:
+        drops = "false"
+    else:
+        raise h.Missing(f"{rel}: PutPlog: dropping of the emptied-field marks of argument rows not recognised")
+    items.append(("c02_putplog_drops_arg_nils", "bool", drops, rel + " PutPlog"))
     n_put = len(re.findall(r"QNameForCorruptedData,\s*e\.app\.seqTrustLevel\s*==\s*isequencer\.SequencesTrustLevel_2:\s*err\s*=\s*e\.app\.config\.storage\.Put\(", body))
     n_ins = len(re.findall(r"SequencesTrustLevel_0,\s*e\.app\.seqTrustLevel\s*==\s*isequencer\.SequencesTrustLevel_1:\s*ok\s*:=\s*false\s*if\s+ok,\s*err\s*=\s*e\.app\.config\.storage\.InsertIfNotExists\(", body))
     if n_put != 2 or n_ins != 2:
